@@ -196,6 +196,18 @@ def gen_instance(rnd, family):
                          "duration": time_spec(rnd, 0, 6, sp), "frequency": time_spec(rnd, 0, 25, sp)})
         ic["outages"] = outs
 
+    if "custom_buffers" in feats and "transport" in feats and rnd.random() < 0.3:
+        # named custom buffers referred to by their own names in the travel matrix
+        # (outside the state model's numeric ids: exercised by the compile-level checks only)
+        feats.add("alpha_buffer_names")
+        ren = {ic["buffer"][0]["name"]: rnd.choice(["b-IN", "b-In", "b-SRC"]), ic["buffer"][1]["name"]: rnd.choice(["b-OUT", "b-Out", "b-DST"])}
+        if len(ic["buffer"]) > 2:
+            ren[ic["buffer"][2]["name"]] = "b-WIP"
+        for e in ic["buffer"]:
+            e["name"] = ren[e["name"]]
+        lg = ic["logistics"]
+        lg["specification"] = lg["specification"].replace("in-buf", ic["buffer"][0]["name"]).replace("out-buf", ic["buffer"][1]["name"])
+
     init = {}
     if family == "shifted" or rnd.random() < 0.1:
         init["start_time"] = rnd.choice([5, 17, 100, -7, 1000])
